@@ -89,6 +89,9 @@ func errCauseConds(ev *ErrVal) map[string]Node {
 }
 
 type NilVal struct{}
+
+// Stale is the content of pooled memory (sync.Pool) that its current user has not overwritten yet.
+type Stale struct{}
 type StrVal struct {
 	Known bool
 	S     string
@@ -208,6 +211,9 @@ func (in *Interp) Zero(t types.Type) Value {
 		}
 		if u.Info()&types.IsString != 0 {
 			return &StrVal{Known: true}
+		}
+		if u.Kind() == types.UnsafePointer {
+			return NilVal{} // internal fields of library types (sync.Pool); never dereferenced by interpreted code
 		}
 		unsupported("zero value of basic type %s", t)
 	case *types.Struct:
